@@ -2128,3 +2128,130 @@ def fresh_map(pdb, ctx, root=None):
         if not (str(ti[1]).endswith("::new") and len(ti) == 2):
             return None
     return {"i": r[0], "lo": r[1], "hi": r[2], "value": e.value, "target": e.target, "kind": e.kind, "node": e.node}
+
+
+# ---- frame rule: which fields of `self` a method may write (transitively through local `&mut self` methods)
+
+_fw_cache = {}
+
+
+def field_writes(pdb, fn, _stack=()):
+    """Names of the fields of `self` that fn may write: assignments to places rooted at self.<f>, `&mut` method calls on
+    them (Vec / Vector / Matrix mutators), `&mut self.<f>` handed to a call, `*self = ..` (every field: '*'), and the writes
+    of every local `&mut self` method it calls."""
+    key = (id(pdb), fn["path"])
+    if key in _fw_cache:
+        return _fw_cache[key]
+    if fn["path"] in _stack:
+        return set()
+    out = set()
+    params = fn.get("params", [])
+    self_v = params[0].get("v") if params and params[0].get("name") == "self" else None
+    if self_v is None:
+        _fw_cache[key] = out
+        return out
+
+    def root_field(e):
+        """the field f if place e is rooted at self.f (through indexing, further fields, derefs), '*' for self itself"""
+        e = strip(e)
+        last = None
+        while True:
+            k = e.get("k")
+            if k == "Field":
+                last = e.get("name")
+                e = strip(e["e"])
+            elif k == "Index":
+                e = strip(e["base"])
+                last = None if strip(e).get("k") != "Field" else last
+            elif k in ("AddrOf",) or (k == "Unary" and e.get("op") == "*"):
+                e = strip(e["e"])
+            elif k == "MethodCall" and e.get("name") in ("deref_mut", "as_mut", "as_mut_slice", "iter_mut", "index_mut"):
+                e = strip(e["recv"])
+            else:
+                break
+        if e.get("k") == "Local" and e.get("v") == self_v:
+            return last if last is not None else "*"
+        return None
+
+    def place_field(e):
+        e0 = strip(e)
+        # walk down to the first Field directly on self
+        chain = []
+        while True:
+            k = e0.get("k")
+            if k == "Field":
+                chain.append(e0.get("name"))
+                e0 = strip(e0["e"])
+            elif k == "Index":
+                b0 = strip(e0["base"])
+                while b0.get("k") == "AddrOf" or (b0.get("k") == "Unary" and b0.get("op") == "*"):
+                    b0 = strip(b0["e"])
+                if b0.get("k") == "Local" and b0.get("v") == self_v and not chain:
+                    # `self[(i, j)]` through a local IndexMut impl: the field its returned reference points into
+                    impl = pdb.fn(str(e0.get("impl") or "").replace("::Index<", "::IndexMut<").replace(">::index", ">::index_mut")) or pdb.fn(e0.get("impl") or "")
+                    if impl is not None and impl.get("params"):
+                        t_ = impl["body"].get("expr") if impl["body"].get("k") == "Block" else impl["body"]
+                        sv_ = impl["params"][0].get("v")
+                        t0 = strip(t_) if t_ is not None else {}
+                        ch = []
+                        while True:
+                            kk = t0.get("k")
+                            if kk == "Field":
+                                ch.append(t0.get("name"))
+                                t0 = strip(t0["e"])
+                            elif kk == "Index":
+                                t0 = strip(t0["base"])
+                            elif kk == "AddrOf" or (kk == "Unary" and t0.get("op") == "*"):
+                                t0 = strip(t0["e"])
+                            else:
+                                break
+                        if t0.get("k") == "Local" and t0.get("v") == sv_ and ch:
+                            return ch[-1]
+                    return "*"
+                e0 = b0
+            elif k in ("AddrOf",) or (k == "Unary" and e0.get("op") == "*"):
+                e0 = strip(e0["e"])
+            else:
+                break
+        if e0.get("k") == "Local" and e0.get("v") == self_v:
+            return chain[-1] if chain else "*"
+        return None
+    for n in walk(fn["body"]):
+        if in_macro(n):
+            continue
+        k = n.get("k")
+        if k in ("Assign", "AssignOp"):
+            f = place_field(n["l"])
+            if f is not None:
+                out.add(f)
+        elif k in ("MethodCall", "Call"):
+            args = list(n.get("args", []))
+            if k == "MethodCall":
+                rv = n["recv"]
+                mut_recv = str(rv.get("adj") or rv.get("ty") or "").startswith("&mut")
+                f = place_field(rv)
+                if f is not None and mut_recv:
+                    cf = pdb.fn(callee_path(n) or "")
+                    if f == "*" and cf is not None:
+                        out |= field_writes(pdb, cf, _stack + (fn["path"],))
+                    elif f == "*":
+                        out.add("*")
+                    else:
+                        out.add(f)
+            for a in args:
+                a0 = strip(a)
+                if a0.get("k") == "AddrOf" and a0.get("mut"):
+                    f = place_field(a0)
+                    if f is not None:
+                        out.add(f)
+    _fw_cache[key] = out
+    return out
+
+
+def rule_frame(rep, pdb, key, fn, allowed, what):
+    """The method writes only the fields its definition changes."""
+    w = field_writes(pdb, fn)
+    extra = sorted(x for x in w if x not in allowed)
+    rep.add(key, "%s writes only %s (directly or through the `&mut self` methods it calls): a write to another field - a dimension reset 'for tidiness', a cached value - changes the recorded shape or state behind the definition" % (what, sorted(allowed)),
+            not extra, fn["body"], "fields written: %s; outside the frame: %s" % (sorted(w), extra), where=loc(fn["body"]))
+    return not extra
